@@ -276,6 +276,13 @@ class RingSystem:
                     if dflt.shape != ret.shape or not torch.equal(dflt, ret):
                         bad.append(("default-arguments:readrange", f"readrange({L}) without offset/forward differs from readrange({L}, 1, forward=False)",
                                     ret.tolist(), dflt.tolist()))
+                if check and kind != "int" and max(offs) <= 2 * N:
+                    # the same offsets in the other integer dtypes a caller may hold them in (an unsigned one included)
+                    for odt in (torch.uint8, torch.int32, torch.int16):
+                        alt = rt.readrange(L, arg.to(odt), forward=fwd)
+                        if alt.shape != ret.shape or not torch.equal(alt, ret):
+                            bad.append((f"readrange:offset-dtype:{str(odt).split('.')[-1]}", f"{op} with the offsets as {odt} differs from the int64 result",
+                                        ret.tolist(), alt.tolist()))
                 exp = []
                 for e in range(E):
                     if fwd:
